@@ -15,6 +15,7 @@ type VerifFSOp struct {
 	Path string
 	File *os.File
 	Data []byte
+	Flag int // openfile: the flags it was opened with
 }
 
 var (
@@ -110,7 +111,7 @@ func verifStubOpenFile(name string, flag int, perm os.FileMode) (*os.File, error
 		return nil, err
 	}
 	f := new(os.File)
-	VerifFSLog = append(VerifFSLog, VerifFSOp{Op: "openfile", Path: name, File: f})
+	VerifFSLog = append(VerifFSLog, VerifFSOp{Op: "openfile", Path: name, File: f, Flag: flag})
 	return f, nil
 }
 
@@ -254,24 +255,53 @@ func VerifFileBytes(path string) ([]byte, bool) {
 		b, err := os.ReadFile(path)
 		return b, err == nil
 	}
-	var f *os.File
-	for _, op := range VerifFSLog {
-		if op.Op == "create" || op.Op == "openfile" {
-			if filepath.Clean(op.Path) == filepath.Clean(path) {
-				f = op.File
-			}
-		}
-	}
-	if f == nil {
-		return nil, false
-	}
+	// replay the log with POSIX semantics: create and O_TRUNC empty the file, O_APPEND writes
+	// at the end, any other handle writes from offset 0 of its own position over what is there
+	want := filepath.Clean(path)
+	exists := false
 	var out []byte
+	type handle struct {
+		mine   bool
+		app    bool
+		offset int
+	}
+	handles := map[*os.File]*handle{}
 	for _, op := range VerifFSLog {
-		if op.Op == "write" {
-			if op.File == f {
-				out = append(out, op.Data...)
+		switch op.Op {
+		case "create":
+			if filepath.Clean(op.Path) == want {
+				exists = true
+				out = nil
+				handles[op.File] = &handle{mine: true}
 			}
+		case "openfile":
+			if filepath.Clean(op.Path) == want {
+				exists = true
+				if op.Flag&os.O_TRUNC != 0 {
+					out = nil
+				}
+				handles[op.File] = &handle{mine: true, app: op.Flag&os.O_APPEND != 0}
+			}
+		case "write":
+			h := handles[op.File]
+			if h == nil {
+				continue
+			}
+			if h.app {
+				h.offset = len(out)
+			}
+			for k := 0; k < len(op.Data); k++ {
+				if h.offset+k < len(out) {
+					out[h.offset+k] = op.Data[k]
+				} else {
+					out = append(out, op.Data[k])
+				}
+			}
+			h.offset += len(op.Data)
 		}
+	}
+	if !exists {
+		return nil, false
 	}
 	return out, true
 }
